@@ -686,7 +686,7 @@ def base_ext():
         '@vassume_le': x_vassume_le, '@vassume_lt': x_vassume_lt,
         '@vcheck_eq': x_vcheck_eq, '@vcheck_le': x_vcheck_le, '@vcheck_lt': x_vcheck_lt, '@vcheck_bits_eq': x_vcheck_bits_eq,
         '@vcheck_true': x_vcheck_true, '@vcheck_indep': x_vcheck_indep, '@vcheck_sat': x_vcheck_sat,
-        '@vreach': x_vreach, '@vcheck_deriv': x_vcheck_deriv, '@vout': x_vout, '@vout_int': x_vout_int, '@vis_symbolic': x_vis_symbolic, '@vset_threads': x_vset_threads,
+        '@vreach': x_vreach, '@vrace_begin': x_noop, '@vcheck_deriv': x_vcheck_deriv, '@vout': x_vout, '@vout_int': x_vout_int, '@vis_symbolic': x_vis_symbolic, '@vset_threads': x_vset_threads,
         '@llvm.fabs.f64': x_fabs, '@fabs': x_fabs, '@llvm.fmuladd.f64': x_fmuladd,
         '@llvm.floor.f64': x_floor, '@floor': x_floor, '@llvm.ceil.f64': x_ceil, '@ceil': x_ceil,
         '@llvm.minnum.f64': x_minmax('min'), '@llvm.maxnum.f64': x_minmax('max'), '@fmin': x_minmax('min'), '@fmax': x_minmax('max'),
